@@ -11,7 +11,9 @@ NOTES = ("Model-based verification with explicit TLA+ specifications (spec/). Pe
          "VIOLATION only when TLC rejects a concrete execution of the real code against the contract. Every TLC batch carries "
          "canary traces that must be rejected; model runs carry vacuity guards (witness predicates TLC must reach, actions never "
          "taken) and sensitivity guards (the pinned-tree variant of the implementation-shaped spec must violate the invariant); a "
-         "failed guard is exit 2, never a pass. See DESIGN.md.")
+         "failed guard is exit 2, never a pass. Every check runs its quick workload a second time under python -O with another "
+         "PYTHONHASHSEED; drivers rotate the process environment (time zone, decimal precision, logging configuration, process clocks) "
+         "and keep bystander instances and earlier results alive, since no statement depends on any of these. See DESIGN.md.")
 
 NOT_APPLICABLE = {}
 
